@@ -453,6 +453,22 @@ func runC02(r *mc.Report, e *Env) {
 			}
 			do("key_mutations", s, "key-extended", "+00", cat(s.Key, 0), s.Content, mode, hdr)
 			do("key_mutations", s, "key-extended", "+ff", cat(s.Key, 0xff), s.Content, mode, hdr)
+			// bytes inserted inside the key (a byte 00 / ab at every position after the selector, 32
+			// bytes right after it), the key body's leading byte dropped, its leading zero bytes
+			// stripped: the right bytes are all there, in the wrong place
+			for pos := 1; pos <= len(s.Key); pos++ {
+				for _, b := range []byte{0x00, 0xab} {
+					k := append(append(append([]byte{}, s.Key[:pos]...), b), s.Key[pos:]...)
+					do("key_mutations", s, "key-byte-inserted", fmt.Sprintf("%d:%02x", pos, b), k, s.Content, mode, hdr)
+				}
+			}
+			do("key_mutations", s, "key-bytes-inserted", "32 after the selector", append(append(append([]byte{}, s.Key[:1]...), make([]byte, 32)...), s.Key[1:]...), s.Content, mode, hdr)
+			if len(s.Key) > 2 {
+				do("key_mutations", s, "key-byte-dropped", "first of the body", append(append([]byte{}, s.Key[:1]...), s.Key[2:]...), s.Content, mode, hdr)
+				if body := bytes.TrimLeft(s.Key[1:], "\x00"); len(body) < len(s.Key)-1 {
+					do("key_mutations", s, "key-leading-zeros-stripped", "", append(append([]byte{}, s.Key[:1]...), body...), s.Content, mode, hdr)
+				}
+			}
 		}
 		if !isBlockKey(s.Key) {
 			continue
